@@ -1,0 +1,101 @@
+//go:build verif
+
+// Contracts for package coalesce, checked by /verif/gvc (comment-only file,
+// compiled only under the build tag "verif").
+package coalesce
+
+//@ flagchan Queue.closed
+
+// Representation invariant of the queue under its mutex: the queue holds each
+// pending item once, and the map's key set is exactly the set of queued items
+// (forall-only form: membership + no duplicates + equal cardinality).
+//@ pred QInv(q *Queue) := q.coalesced != nil && len(q.queue) == len(q.coalesced)
+//@   && (forall j int :: 0 <= j && j < len(q.queue) ==> has(q.coalesced, q.queue[j]))
+//@   && (forall a int, b int :: 0 <= a && a < b && b < len(q.queue) ==> q.queue[a] != q.queue[b])
+
+// queue and coalesced are only touched under the embedded mutex; at every
+// release QInv holds again (thread-modular: at every acquisition the two
+// fields are arbitrary values satisfying QInv).
+//@ monitor Queue.Mutex protects queue, coalesced invariant QInv
+
+// Facts that never change after NewQueue (the channel fields are immutable,
+// inserted is never closed).
+//@ pred QStable(q *Queue) := q != nil && q.closed != nil && q.inserted != nil && !closed(q.inserted)
+
+// Every key other than k keeps its presence and count.
+//@ pred SameExcept(q *Queue, k any) := forall x any :: x != k ==>
+//@   (has(q.coalesced, x) <==> old(has(q.coalesced, x))) && q.coalesced[x] == old(q.coalesced[x])
+//@ pred MapSame(q *Queue) := forall x any :: (has(q.coalesced, x) <==> old(has(q.coalesced, x))) && q.coalesced[x] == old(q.coalesced[x])
+
+// Ghost call counter of the locked insertion step (used to state that a closed
+// queue is not touched by Insert).
+//@ ghost insertSteps int
+
+//@ func NewQueue
+//@   props C11 C12
+//@   ensures fresh(res0) && QStable(res0) && QInv(res0) && len(res0.queue) == 0 && !closed(res0.closed)
+
+// old(...) below is the state at the moment the mutex was acquired.
+//@ func (*Queue).insert
+//@   props C11 C08 C12
+//@   arith wrap
+//@   locks q
+//@   effect insertSteps := insertSteps + 1
+//@   requires q != nil
+//@   ensures [coalesce] old(has(q.coalesced, i)) ==> !res0 && q.queue == old(q.queue) && view(q.queue) == old(view(q.queue))
+//@     && q.coalesced[i] == wrap32u(old(q.coalesced[i]) + 1) && has(q.coalesced, i)
+//@   ensures [append] !old(has(q.coalesced, i)) ==> res0 && view(q.queue) == old(view(q.queue)) ++ unit(i)
+//@     && has(q.coalesced, i) && q.coalesced[i] == 0
+//@   ensures [others-kept] SameExcept(q, i)
+//@   ensures [inv] QInv(q)
+
+//@ func (*Queue).next
+//@   props C11 C08 C12
+//@   locks q
+//@   requires q != nil
+//@   ensures [empty] old(len(q.queue)) == 0 ==> res0 == nil && res1 == 0 && !res2 && len(q.queue) == 0
+//@     && q.coalesced == old(q.coalesced) && MapSame(q)
+//@   ensures [head] old(len(q.queue)) > 0 ==> res2 && res0 == old(q.queue[0]) && res1 == old(q.coalesced[q.queue[0]])
+//@     && !has(q.coalesced, res0)
+//@   ensures [fifo] old(len(q.queue)) > 0 ==> view(q.queue) == old(sub(view(q.queue), 1, len(q.queue)))
+//@   ensures [others-kept] forall x any :: x != res0 ==> (has(q.coalesced, x) <==> old(has(q.coalesced, x)))
+//@     && (has(q.coalesced, x) ==> q.coalesced[x] == old(q.coalesced[x]))
+//@   ensures [inv] QInv(q)
+
+//@ func (*Queue).Len
+//@   props C11 C12
+//@   locks q
+//@   requires q != nil
+//@   ensures res0 == len(q.queue) && QInv(q)
+
+// Insert: refused after close (nothing is touched: insert is not even called);
+// otherwise the item is pending when Insert returns, and the wake-up send
+// never blocks and never hits a closed channel.
+//@ func (*Queue).Insert
+//@   props C11 C08 C12
+//@   requires QStable(q)
+//@   modifies ghost insertSteps
+//@   ensures [refused-after-close] old(closed(q.closed)) ==> !res0 && res1 == errClosedQueue && insertSteps == old(insertSteps)
+//@   ensures [accepted] !old(closed(q.closed)) ==> res1 == nil && insertSteps == old(insertSteps) + 1
+
+//@ func (*Queue).Close
+//@   props C11 C12
+//@   locks q
+//@   requires QStable(q)
+//@   modifies closed(q.closed)
+//@   ensures closed(q.closed)
+
+//@ func (*Queue).IsClosed
+//@   props C11 C12
+//@   requires q != nil
+//@   ensures res0 <==> closed(q.closed)
+
+// Next: the closed error is reported only when, after the close was observed,
+// the queue was observed empty under the mutex (so every insertion that
+// completed before the close has been delivered); a valid item is returned as
+// soon as next() yields one.
+//@ func (*Queue).Next
+//@   props C11 C12
+//@   requires QStable(q) && ctx != nil
+//@   ensures [closed-only-when-empty] res2 == errClosedQueue ==> closed(q.closed) && len(q.queue) == 0
+//@   ensures [valid-item] res2 == nil ==> !has(q.coalesced, res0) && QInv(q)
